@@ -268,6 +268,45 @@ func c04Mutants(r *rng, seed []byte, thorough bool, emit func(tag string, b []by
 			return m
 		}))
 	}
+	// length-consistent truncation inside a metadata document: an element is moved to the end of the embedded document
+	// and its value loses its last k bytes, with the lengths of the embedded and of the outer document adjusted: the
+	// frames are intact, only the last value is shorter than its type says
+	for di, dd := range docs {
+		es, ok := walkElems(dd)
+		if !ok {
+			continue
+		}
+		for ei, e := range es {
+			if e.key != "doc" || e.t != 0x03 {
+				continue
+			}
+			inner, ok := walkElems(e.val)
+			if !ok {
+				continue
+			}
+			for ii, ie := range inner {
+				for k := 1; k <= 13 && k <= len(ie.val); k++ {
+					if !thorough && k > 2 && k != 12 && k != len(ie.val) {
+						continue
+					}
+					moved := append([]rawElem{}, inner[:ii]...)
+					moved = append(moved, inner[ii+1:]...)
+					moved = append(moved, rawElem{ie.t, ie.key, ie.val[:len(ie.val)-k]})
+					outer := append([]rawElem{}, es...)
+					outer[ei] = rawElem{e.t, e.key, buildDoc(moved)}
+					m := []byte{}
+					for dj, other := range docs {
+						if dj == di {
+							m = append(m, buildDoc(outer)...)
+						} else {
+							m = append(m, other...)
+						}
+					}
+					emit(fmt.Sprintf("ptrunc%d.%d.%d", di, ii, k), m)
+				}
+			}
+		}
+	}
 	// type confusion of the three outer fields of every document
 	off := 0
 	for _, dd := range docs {
@@ -337,10 +376,22 @@ func init() {
 		total := 0
 		seen := map[string]bool{}
 		for si, seed := range c04Seeds(r) {
-			light := si == 3 || si == 4
+			light := si == 3
+			medium := si == 4
+			nmut := 0
 			c04Mutants(r, seed, thorough, func(tag string, b []byte) {
 				if light && !strings.HasPrefix(tag, "pn") && !(strings.HasPrefix(tag, "prefix") && len(b)%7 == 0) {
 					return
+				}
+				if medium {
+					// the all-types stream is long: every prefix, every deletion and every length-field perturbation of
+					// the outer stream, the count-field and varint mutants, and every third of the rest
+					nmut++
+					keep := strings.HasPrefix(tag, "prefix") || strings.HasPrefix(tag, "del") || strings.HasPrefix(tag, "len") ||
+						strings.HasPrefix(tag, "pn") || strings.HasPrefix(tag, "pcount") || strings.HasPrefix(tag, "ptrunc") || nmut%3 == 0
+					if !keep || (!thorough && strings.HasPrefix(tag, "p") && !strings.HasPrefix(tag, "prefix") && !strings.HasPrefix(tag, "pn") && !strings.HasPrefix(tag, "ptrunc") && nmut%4 != 0) {
+						return
+					}
 				}
 				h := hex.EncodeToString(b)
 				if seen[h] {
